@@ -500,9 +500,12 @@ fn c19_content<A: Subject>(run: &Run, reserved: u32, lens: &[u32], cap: u32, bac
     let data = &a.allocated_memory()[a.reserved_bytes()..];
     let want1 = crc.checksum_one(data);
     let want2 = ph.checksum_one(data);
-    let got1 = a.checksum(&crc);
-    let got2 = a.checksum(&ph);
+    let got = std::panic::catch_unwind(std::panic::AssertUnwindSafe(|| (a.checksum(&crc), a.checksum(&ph))));
     run.eval(2);
+    let Ok((got1, got2)) = got else {
+      viol(run, "C19", "checksum-panicked", format!("[{} {:?} reserved {} allocated {} content {}] checksum() panicked", A::FLAVOUR, backend, reserved, l, content), json!({"engine": "c19", "flavour": A::FLAVOUR, "reserved": reserved, "allocated": l, "content": content}));
+      continue;
+    };
     if got1 != want1 || got2 != want2 {
       viol(run, "C19", &format!("digest-differs:{}{}", if got2 != want2 { "poshash" } else { "crc32" }, if content == 0 { "" } else { ":sparse-content" }), format!("[{} {:?} reserved {} allocated {} content {}] checksum() = ({:#x},{:#x}), one-shot over allocated_memory()[reserved_bytes()..] = ({:#x},{:#x})", A::FLAVOUR, backend, reserved, l, content, got1, got2, want1, want2), json!({"engine": "c19", "flavour": A::FLAVOUR, "reserved": reserved, "allocated": l, "content": content}));
     }
@@ -561,8 +564,12 @@ fn c19_reopened<A: Subject>(run: &Run, reserved: u32, lens: &[u32], cap: u32, co
       let rb = a.reserved_bytes().min(a.allocated());
       let data = &a.allocated_memory()[rb..];
       let (want1, want2) = (crc.checksum_one(data), ph.checksum_one(data));
-      let (got1, got2) = (a.checksum(&crc), a.checksum(&ph));
+      let got = std::panic::catch_unwind(std::panic::AssertUnwindSafe(|| (a.checksum(&crc), a.checksum(&ph))));
       run.eval(2);
+      let Ok((got1, got2)) = got else {
+        viol(run, "C19", "checksum-panicked:reopened", format!("[{} {:?} reopen, reserved {} allocated {} content {}] checksum() panicked", A::FLAVOUR, mode, reserved, l, content), case);
+        continue;
+      };
       if got1 != want1 || got2 != want2 {
         viol(run, "C19", &format!("digest-differs:reopened:{}", if mode.writable() { "writable" } else { "read-only" }), format!("[{} {:?} reopen, reserved {} allocated {} content {}] checksum() = ({:#x},{:#x}), one-shot over allocated_memory()[reserved_bytes()..] = ({:#x},{:#x})", A::FLAVOUR, mode, reserved, l, content, got1, got2, want1, want2), case);
       }
